@@ -302,6 +302,10 @@ def gen_builtin_cases(rng, n, macros):
         if name not in macros:
             continue
         pre, post = frag(rng, 1, rng.randrange(0, 2), SIMPLE), frag(rng, 1, rng.randrange(0, 2), SIMPLE)
+        if rng.random() < 0.5:
+            # a song key / track key already in force: the documented texts set and reset the SONG key
+            # (closed with `;` or `)`: an open argument would absorb a following `|` or `(` - the proviso of C18)
+            pre = rng.choice(["Key=2; ", "KeyShift(3) ", "TrackKey=-2; ", "TrackKey(5) ", "Key=-1; TrackKey=4; "]) + pre
         if name == "Unison":
             k = str(rng.choice([7, 4, 12, 3, 5, -12, 0]))
             call = rng.choice(["Unison{%s},%s;", "Unison({%s},%s)"]) % (notes, k)
